@@ -2552,6 +2552,16 @@ void prepare_cases (parse_node_t * pn, size_t start) {
       ce++;
     }
   (*(ce_end - 1))->l.expr = 0;
+  if (direct)
+    {
+      /* the direct lookup table stores its smallest label as a 32-bit int */
+      parse_node_t *first = *ce_start;
+
+      if (first->kind == NODE_DEFAULT && ce_start + 1 < ce_end)
+        first = *(ce_start + 1);
+      if (first->r.number < INT_MIN || first->r.number > INT_MAX)
+        direct = 0;
+    }
   if (direct && pn->kind == NODE_SWITCH_NUMBERS)
     pn->kind = NODE_SWITCH_DIRECT;
   pn->v.expr = *(ce_start);
